@@ -11,10 +11,11 @@ import (
 
 // sepRule: separator discipline of hand-written JSON emitting loops.
 // A loop that writes a ',' into a bytes.Buffer must either
-//   (a) write it at the top of the body under `index != 0` / a `first` flag with no
-//       skip (continue) before the flag is updated, or
-//   (b) write it at the bottom under `index+1 != len` with NO path that skips an
-//       element (continue) at all.
+//
+//	(a) write it at the top of the body under `index != 0` / a `first` flag with no
+//	    skip (continue) before the flag is updated, or
+//	(b) write it at the bottom under `index+1 != len` with NO path that skips an
+//	    element (continue) at all.
 func sepRule(R string, pkgPrefixes []string, floor int) RuleFunc {
 	return func(c *core.Ctx) {
 		c.Rule(R, "in every loop that writes a ',' separator into a JSON buffer: if an element can be skipped (a `continue` in the body) the separator decision must not be a function of the loop index and the length (it would leave a dangling or doubled comma); index-based separators are accepted only in loops without a skip path, in the forms `i != 0` at the top or `i+1 != len` at the bottom")
